@@ -712,7 +712,8 @@ namespace awkward {
     if (next > reserved_) {
       int64_t reservation = reserved_;
       while (next > reservation) {
-        reservation = (int64_t)std::ceil(reservation * resize_);
+        int64_t grown = (int64_t)std::ceil(reservation * resize_);
+        reservation = (grown > reservation ? grown : reservation + 1);
       }
       std::shared_ptr<OUT> new_buffer = std::shared_ptr<OUT>(new OUT[reservation],
                                                              kernel::array_deleter<OUT>());
